@@ -183,8 +183,21 @@ def dep5_glob_match(g, p):
     return re.fullmatch("".join(rx), p, re.S) is not None
 
 
-def truth(case):
-    """-> {"status": "ok"|"config-error"|"duplicate", "files": {path: sorted items}, categories, "exit", "compliant", "violated"}"""
+def hidden_lic_names(case):
+    """regular files below LICENSES/ with a component that begins with a dot"""
+    ln = node_at(case["tree"], "LICENSES")
+    if ln is None or ln[0] != "d":
+        return []
+    return [p for p, node in walk_nodes(ln[1]) if node[0] == "f" and any(part.startswith(".") for part in p.split("/"))]
+
+
+def truth(case, every_file=False):
+    """-> {"status": "ok"|"config-error"|"duplicate", "files": {path: sorted items}, categories, "exit", "compliant", "violated"}
+
+    `every_file`: clause (c) of C01 speaks of *every file in LICENSES/*; with every_file=True the files whose name, or whose
+    directory's name, begins with a dot count like any other (the reading of the property text).  With False they are left out:
+    that is what the tool does (glob('**') skips them), what the composed model mirrors, and what the streams about `reuse spdx`
+    build on."""
     tree, flags = case["tree"], case["flags"]
     covered = sorted(c03.spec_covered(c03_tree(tree), flags))
     found = sorted(p[:-len(".probe")] for p in c03.spec_covered(c03_tree(tree, True), flags) if p.endswith("REUSE.toml.probe"))
@@ -208,7 +221,9 @@ def truth(case):
             if node[0] == "f" and not any(part.startswith(".") for part in p.split("/")):
                 lic.append(p)
     if not rc.dup_free({"lic": lic}):
-        return {"status": "duplicate"}
+        return {"status": "duplicate"}       # (the tool stops: C16; decided on the names the tool sees)
+    if every_file:
+        lic = lic + hidden_lic_names(case)
     files_abs = []
     per_file = {}
     per_exprs = {}
@@ -843,7 +858,17 @@ class E2EModelStream(Stream):
         if impl_out.startswith("EXC"):
             return "crash: " + impl_out
         got = json.loads(impl_out)
-        exp = truth(case)
+        why = self.judge(case, got, truth(case, every_file=True))
+        if why is not None and hidden_lic_names(case):
+            # known-finding shape: the verdict is what the property demands as soon as the dot-files below LICENSES/ are
+            # left out of "every file in LICENSES/", and only then
+            lenient = self.judge(case, got, truth(case))
+            if lenient is not None:
+                return lenient
+            return "hidden-licence-file: %s below LICENSES/ not examined (%s) {shape=hidden-name-in-licenses}" % (hidden_lic_names(case), why)
+        return why
+
+    def judge(self, case, got, exp):
         if got["status"] != exp["status"]:
             return "status: the tool answers %s, the project is %s" % (got["status"], exp["status"])
         if got["status"] != "ok":
@@ -877,6 +902,8 @@ class E2EModelStream(Stream):
         return rc.diff_kind({"lic": exp["lic_names"]}, got, exp, CATS + ("used",))
 
     def classify(self, case, failure):
+        if failure.startswith("hidden-licence-file") and failure.endswith("{shape=hidden-name-in-licenses}"):
+            return "hidden-name-in-licenses"
         if failure.startswith("spdx-name-with-identifier-stem"):
             return "extensionless-id-with-identifier-stem"
         if failure.startswith("licenses-regular-file"):
